@@ -17,6 +17,7 @@ import (
 	"path/filepath"
 	"strings"
 	"sync"
+	"syscall"
 	"testing"
 	"time"
 )
@@ -105,6 +106,7 @@ func runCell(base string, c Cell) *Result {
 		env = append(env, k+"="+v)
 	}
 	cmd.Env = env
+	cmd.SysProcAttr = &syscall.SysProcAttr{Setpgid: true} // own process group: a hung cell can be killed with its children
 	done := make(chan struct{})
 	var out []byte
 	var err error
@@ -112,9 +114,13 @@ func runCell(base string, c Cell) *Result {
 	select {
 	case <-done:
 	case <-time.After(150 * time.Second):
+		syscall.Kill(-cmd.Process.Pid, syscall.SIGKILL)
 		cmd.Process.Kill()
 		<-done
 		return &Result{HelperErr: "cell timed out after 150 s (a call hung)"}
+	}
+	if cmd.Process != nil {
+		syscall.Kill(-cmd.Process.Pid, syscall.SIGKILL) // whatever the cell left running (stopped plugins, sleeps)
 	}
 	sc := bufio.NewScanner(strings.NewReader(string(out)))
 	sc.Buffer(make([]byte, 1<<20), 32<<20)
@@ -134,6 +140,12 @@ func runCell(base string, c Cell) *Result {
 	msg := fmt.Sprintf("host process died (%v): %s", err, tail)
 	if i := strings.Index(string(out), "panic:"); i >= 0 {
 		msg = "host process panicked: " + strings.SplitN(string(out)[i:], "\n", 2)[0]
+	}
+	if strings.Contains(string(out), "panic: test timed out") {
+		msg = "a host call never returned: the cell was still running when the helper's 120 s deadline expired"
+		if j := strings.Index(string(out), "go-plugin.(*Client)."); j >= 0 {
+			msg += " (blocked in " + strings.SplitN(string(out)[j:], "(", 3)[1] + strings.SplitN(strings.SplitN(string(out)[j:], "\n", 2)[0], ")", 2)[1] + ")"
+		}
 	}
 	os.RemoveAll(c.Dir)
 	return &Result{HelperErr: msg}
